@@ -2,11 +2,39 @@
 
 package jsonata
 
-import "github.com/blues/jsonata-go/jparse"
+import (
+	"reflect"
+
+	"github.com/blues/jsonata-go/jparse"
+	"github.com/blues/jsonata-go/jtypes"
+)
 
 // VerifNode returns the root of the parsed expression held by e. It is
 // only compiled with the "verif" build tag and is used by the external
 // verification harness to compare the tree before and after evaluation.
 func VerifNode(e *Expr) jparse.Node {
 	return e.node
+}
+
+// VerifGate, when set, is called at the steps of a function call:
+// "set-ctx" before the caller's name and context are recorded,
+// "invoke" before the function is invoked, and "ctx-use" when a Go
+// callable reads its context item (with that item). The harness
+// uses it both to record these steps and, by blocking in it, to
+// force a particular interleaving of concurrent evaluations.
+var VerifGate func(point string, fn string, ctx interface{})
+
+func verifGate(point string, fn jtypes.Callable, ctx reflect.Value) {
+	if VerifGate == nil {
+		return
+	}
+	var v interface{}
+	if ctx.IsValid() && ctx.CanInterface() {
+		v = ctx.Interface()
+	}
+	name := ""
+	if fn != nil {
+		name = fn.Name()
+	}
+	VerifGate(point, name, v)
 }
